@@ -6,7 +6,8 @@
 //!   with one JSON object per line.
 //! * Gates: when switched on with the notification `verif/gating`, every background analysis
 //!   announces itself with `verif/reached` and waits until the client sends `verif/release` for
-//!   its document, version and phase. `verif/done` is sent when a background analysis has finished.
+//!   its document, version and phase. `verif/spawned` is sent by the main loop right before it
+//!   starts a background analysis, `verif/done` when a background analysis has finished.
 
 use std::collections::HashSet;
 use std::io::{BufRead, Write};
@@ -98,6 +99,15 @@ pub(crate) fn gate(connection: &Connection, uri: &str, version: i32, phase: Phas
     while g.on && !g.released.contains(&(uri.to_string(), version, phase)) {
         g = condvar.wait(g).unwrap();
     }
+}
+
+/// Sent by the main loop right before it spawns a background analysis for `version`.
+pub(crate) fn spawned(connection: &Connection, uri: &str, version: i32) {
+    notify(
+        connection,
+        "verif/spawned",
+        serde_json::json!({"uri": uri, "version": version}),
+    );
 }
 
 pub(crate) fn done(connection: &Connection, uri: &str, version: i32) {
